@@ -1,5 +1,5 @@
 #!/bin/sh
-# usage: eval_seeded.sh <dir with Cxx.mN.patch.diff files> [ids...]   - applies each change to /repo, runs the property's quick check
+# usage: [TAGS="m5 m6"] eval_seeded.sh <dir with Cxx.mN.patch.diff files> [ids...]   - applies each change to /repo, runs the property's quick check
 # (campaigns only: the proof step does not depend on /repo), undoes the change.  One line per change on stdout.
 dir=$(cd "$1" && pwd); shift
 ids=${*:-C01 C02 C03 C04 C05 C06 C07 C08 C09 C10 C11 C12 C13 C14 C15 C16 C17 C18 C19 C20}
@@ -7,6 +7,7 @@ for id in $ids; do
   for patch in $dir/$id.m*.patch.diff $dir/$id/m*/patch.diff; do
     [ -f "$patch" ] || continue
     tag=$(echo $patch | sed 's/.*\(m[0-9]*\).*/\1/')
+    if [ -n "$TAGS" ]; then case " $TAGS " in *" $tag "*) ;; *) continue;; esac; fi
     git -C /repo diff --quiet || { echo "/repo not clean"; exit 2; }
     if ! git -C /repo apply $patch 2>/dev/null; then echo "$id.$tag: does-not-apply"; continue; fi
     (cd /verif && timeout 1500 ./check $id --tier quick --no-proof > /tmp/evalseed_$id.$tag.log 2>&1); rc=$?
